@@ -22,6 +22,10 @@ from .chem import (Rad, Chg, AInRing, Arom, Deg, BondOf, BType, BInRing, OtherAt
 from .spec import check_outcome
 
 PROPERTY = 'C08'
+LEVEL = 'other'
+EXPLANATION = ('deductive obligations on every evaluator, the filter structure of GetQueryMatches and the reader translation units, relative to an abstract RDKit; one '
+               'obligation (no embedding is cut off by the cap on raw RDKit matches) is REFUTED on the unchanged tree and reported as known finding K4, hence the '
+               'record is not a proof record; a brute-force matcher is the bounded second line')
 MQ = 'pgradd/RDkitWrapper/MolQuery.py'
 MQR = 'pgradd/RINGParser/MolQueryRead.py'
 IS, BS = z3.IntSort(), z3.BoolSort()
